@@ -244,9 +244,15 @@ def shard(args):
             shutil.rmtree(scratch, ignore_errors=True)
         return res.to_dict()
     for i in range(args['n']):
-        script = gen_smt.random_script(r, max_bv=r.choice([4, 8, 8, 16]))
+        # scripts are analysed one after the other in this process: with
+        # 'shared' names a symbol changes its role from script to script,
+        # so an answer that depends on an earlier input shows
+        style = r.choice(['plain', 'shared', 'shared'])
+        script = gen_smt.random_script(r, max_bv=r.choice([4, 8, 8, 16]),
+                                       names=style)
         npos = check_script(ns, res, script, f'{args["shard"]}:{i}')
         res.count('scripts')
+        res.count(f'scripts_names_{style}')
         if npos >= 3:
             res.add_distinct(common.digest(script.text()))
         if i < 1:
@@ -262,6 +268,10 @@ def run(ctx):
                for i in range(common.NCPU)]
     results = common.run_shards('checks.c16', shards, timeout=3000)
     common.merge_shards(ctx, results)
+    # real-run part: the sorts answered during a real run must not depend
+    # on inputs the process analysed earlier
+    from checks import c17_real
+    c17_real.run(ctx, 'sorts')
     ctx.rule = (
         'gen_smt scripts over random theory subsets (Core, Ints, Reals, BV, '
         'FP, Strings/Seq, Arrays, datatypes, UF, let, quantifiers, '
@@ -270,7 +280,13 @@ def run(ctx):
         'with the generator typing; distinct non-trivial = distinct scripts '
         'with >= 3 term positions; consequence clause: results of '
         'Constants / ReplaceByVariable / ReplaceByChild / '
-        'IntroduceFreshVariable proposals are sort-checked by cvc5')
+        'IntroduceFreshVariable proposals are sort-checked by cvc5; scripts '
+        'are analysed in sequence in one process, two thirds with one name '
+        'space for all roles (a constructor name of one script is a '
+        'function or constant in the next); real-run part: at every point '
+        'where the main thread starts generating simplifications the sort '
+        'answered for every subterm is compared with the answer after a '
+        'fresh collect_information on the same input')
     ctx.assumptions = [
         'gen_smt typing is the ground truth (scripts validated against z3 '
         'and cvc5 in the self-test)',
